@@ -7,15 +7,31 @@ From Cam Require Export Cache.
 Definition overlap (a l a' l' : Z) : Prop := a < a' + l' /\ a' < a + l.
 
 (* The description declares its dependencies: whenever a cache key of register m (its address
-   under some value of the index variables) can overlap the range written by register n (its
-   address under some, possibly other, value of the index variables), n is a pInvalidator of m -
-   except for the very key n writes, which write_and_cache maintains itself. *)
+   and its length under some value of the index / length variables) can overlap the range written
+   by register n (its address and length under some, possibly other, value of the variables), n is
+   a pInvalidator of m - except for the very key (address AND length) n writes, which
+   write_and_cache maintains itself.  One valuation [vs] gives both the address and the length of
+   a register, so a variable that is selector and length at once is treated exactly.
+   For n = m this says: a register whose own keys can overlap one another - two selector positions
+   closer than the length, or one address under two producible lengths - is its own pInvalidator
+   (write_and_cache starts with invalidate_cache_by(nid), which then drops all of its blocks).
+   The code needs it: WriteThrough stores (nid, a, len) and keeps (nid, a, len') - see
+   P_C04.own_keys_need_self_invalidator. *)
 Definition Declared (y : system) : Prop :=
   forall n m rn rm vs vs' a a',
     node_at y n = Some (NReg rn) -> node_at y m = Some (NReg rm) ->
     address rn vs = Ok a -> address rm vs' = Ok a' ->
-    overlap a (g_len rn) a' (g_len rm) ->
-    (n = m /\ a = a') \/ In n (g_inval rm).
+    overlap a (len_of rn vs) a' (len_of rm vs') ->
+    (n = m /\ a = a' /\ len_of rn vs = len_of rm vs') \/ In n (g_inval rm).
+
+(* the hypothesis as the property text words it ("every node that can alter ANOTHER register's
+   bytes"): nothing is asked of a register with respect to its own keys *)
+Definition DeclaredOthers (y : system) : Prop :=
+  forall n m rn rm vs vs' a a',
+    node_at y n = Some (NReg rn) -> node_at y m = Some (NReg rm) -> n <> m ->
+    address rn vs = Ok a -> address rm vs' = Ok a' ->
+    overlap a (len_of rn vs) a' (len_of rm vs') ->
+    In n (g_inval rm).
 
 (* the bytes the device holds at [a, a+l), if the range lies in the image *)
 Definition peek (d : dev) (a l : Z) : option (list Z) :=
@@ -25,11 +41,12 @@ Definition peek (d : dev) (a l : Z) : option (list Z) :=
 Definition Coh (s : cst) : Prop :=
   forall n a l bs, In ((n, a, l), bs) (c_cache s) -> peek (c_dev s) a l = Some bs.
 
-(* the full invariant: coherence, and every key is a key the code can produce for a register
-   that may be cached *)
+(* the full invariant: coherence, and every key is a key the code can produce (address and length
+   under one valuation of the variables) for a register that may be cached *)
 Definition entry_ok (y : system) (d : dev) (e : key * list Z) : Prop :=
-  (exists r, node_at y (key_node (fst e)) = Some (NReg r) /\ key_len (fst e) = g_len r /\
-             cacheable r = true /\ 0 <= g_len r /\ exists vs, address r vs = Ok (key_addr (fst e)))
+  (exists r, node_at y (key_node (fst e)) = Some (NReg r) /\
+             cacheable r = true /\ 0 <= key_len (fst e) /\
+             exists vs, address r vs = Ok (key_addr (fst e)) /\ len_of r vs = key_len (fst e))
   /\ peek d (key_addr (fst e)) (key_len (fst e)) = Some (snd e).
 
 Definition Inv (y : system) (s : cst) : Prop := Forall (entry_ok y (c_dev s)) (c_cache s).
@@ -40,19 +57,24 @@ Inductive sublist {A : Type} : list A -> list A -> Prop :=
 | sub_skip : forall x l1 l2, sublist l1 l2 -> sublist l1 (x :: l2)
 | sub_cons : forall x l1 l2, sublist l1 l2 -> sublist (x :: l1) (x :: l2).
 
-(* a decidable sufficient condition for [Declared] on systems without index variables *)
+(* a decidable sufficient condition for [Declared] on systems without index and length variables *)
 Definition overlapb (a l a' l' : Z) : bool := (a <? a' + l') && (a' <? a + l).
+
+Definition imm_len (r : creg) : Z := match g_len r with LImm l => l | LVar _ => 0 end.
 
 Definition static_pair_ok (y : system) (n m : nat) : bool :=
   match nth_error (y_nodes y) n, nth_error (y_nodes y) m with
   | Some (NReg rn), Some (NReg rm) =>
-    negb (overlapb (g_base rn) (g_len rn) (g_base rm) (g_len rm)) || (n =? m)%nat
+    negb (overlapb (g_base rn) (imm_len rn) (g_base rm) (imm_len rm)) || (n =? m)%nat
     || zmem (Z.of_nat n) (g_inval rm)
   | _, _ => true
   end.
 
 Definition no_index (c : cnode) : bool :=
-  match c with NReg r => match g_index r with [] => true | _ => false end | _ => true end.
+  match c with
+  | NReg r => match g_index r, g_len r with [], LImm _ => true | _, _ => false end
+  | _ => true
+  end.
 
 Definition declared_static (y : system) : bool :=
   forallb no_index (y_nodes y) &&
